@@ -134,6 +134,13 @@ CHECKS = {
         "Trusted: stand-ins for multiprocessing.Process/Manager/cpu_count and os.kill in the runner modules (worker bodies never run); capacity rules of DESIGN A.10.",
         "DESIGN.md 3 C14, A.10",
     ),
+    "C16": (
+        "exploration",
+        "differential Hypothesis stateful machine: one Mem app and one SQLite app driven in lock-step under a virtual clock over the public operation alphabet of all five component families; small reference models (lifecycle, queue) on top",
+        "Up to 60 operations per history over <= 8 invocations, 3 tasks, 3 argument values and 3 runners: registration (single / batch), status requests, queries by task / arguments / status / call, pagination, counts, filter-by-status, retries, heartbeats and active runners, clock advances, recovery scans, auto-purge, wait graph, queue, results / exceptions / history / workflow data / workflow runs / time-range scans / runner contexts, trigger conditions / valid conditions / run claims with expiry / cron bookkeeping, client data, component purges. Return values (sets where order is unspecified), error families and later observations must be equal on both backends and agree with the lifecycle and queue models.",
+        "Trusted: canonicalisation (ids -> indices, sorted where order is unspecified, pagination modulo equal timestamps); status requests only on registered ids; a state-backend purge restarts the universe (orchestrator and broker purged with it).",
+        "DESIGN.md 3 C16",
+    ),
 }
 
 NOT_YET = "check not built yet in this session (work in progress, see DESIGN.md section 3)"
